@@ -4,6 +4,7 @@ package sqlx
 
 import (
 	"context"
+	"database/sql"
 	"database/sql/driver"
 	"errors"
 	"fmt"
@@ -107,6 +108,8 @@ func c11Tx(r *zsim.Run, c c11Case) {
 	var execErrSeen error
 	ctx, cancel := context.WithCancel(context.Background())
 	defer cancel()
+	// what the body fails with does not matter: anything but nil is rolled back
+	bodyErr := []error{c11ErrBody, driver.ErrBadConn, fmt.Errorf("wrapped: %w", driver.ErrBadConn), sql.ErrConnDone, context.Canceled}[r.Ops.Intn(5)]
 	body := func(s Session) error {
 		bodyRan = true
 		for k := 0; k <= c.stmts; k++ {
@@ -118,7 +121,7 @@ func c11Tx(r *zsim.Run, c c11Case) {
 			if k == c.at {
 				switch c.ending {
 				case 1:
-					return c11ErrBody
+					return bodyErr
 				case 2:
 					panic("body-panic")
 				case 3:
@@ -208,7 +211,7 @@ func c11Tx(r *zsim.Run, c c11Case) {
 			r.Failf("panic-swallowed", "the body panicked but Transact returned nil and re-raised nothing")
 		}
 	default: // the body returned an error
-		want := c11ErrBody
+		want := bodyErr
 		if execErrSeen != nil && !c.ignoreEx {
 			want = execErrSeen
 		}
@@ -513,10 +516,11 @@ func c11Rows(r *zsim.Run) {
 	}
 	nf := 1 + o.Intn(5)
 	tagged := o.Intn(4) != 0
+	style := o.Intn(3) // snake_case, camelCase or upper-case column names: the tag is matched verbatim
 	fields := make([]c11Field, nf)
 	sf := make([]reflect.StructField, nf)
 	for i := range fields {
-		fields[i] = c11Field{name: fmt.Sprintf("col_%c", 'a'+i), kind: o.Intn(len(c11Kinds))}
+		fields[i] = c11Field{name: fmt.Sprintf([]string{"col_%c", "col%cId", "COL_%c"}[style], 'a'+i), kind: o.Intn(len(c11Kinds))}
 		sf[i] = reflect.StructField{Name: fmt.Sprintf("F%c", 'A'+i), Type: c11Kinds[fields[i].kind]}
 		if tagged {
 			sf[i].Tag = reflect.StructTag(fmt.Sprintf(`db:"%s"`, fields[i].name))
@@ -590,6 +594,13 @@ func c11Rows(r *zsim.Run) {
 	fdb, db := zsql.New()
 	defer db.Close()
 	fdb.Rows = func(string, []driver.NamedValue) ([]string, [][]driver.Value, error) { return colNames, data, nil }
+	// fault: the query is accepted but fetching the first row fails in the driver (single-row queries)
+	var fetchErr error
+	if !many && r.Fault.Intn(6) == 5 {
+		fetchErr = errors.New("driver-fault-fetch-row-0")
+		fdb.RowFail = map[int]error{0: fetchErr}
+		r.FaultFired("driver-row-fetch")
+	}
 	conn := NewConnFromDB(db)
 	var dest reflect.Value
 	if many {
@@ -626,6 +637,12 @@ func c11Rows(r *zsim.Run) {
 	r.Logf("result err=%v panic=%v", err, panicked)
 	if panicked != nil {
 		r.Failf("row-mapping-panic", "query mapping panicked: %v", panicked)
+		return
+	}
+	if fetchErr != nil {
+		if !errors.Is(err, fetchErr) {
+			r.Failf("driver-error-lost", "the driver failed to fetch the first row (%v) but the single-row query returned %v", fetchErr, err)
+		}
 		return
 	}
 	missing := len(cols) < nf || layout == "missing"
